@@ -252,6 +252,10 @@ def worker(prop: str, tier: str, idx: int, nworkers: int, seed: int, ncases: int
                 if isinstance(case, dict) and "pre" not in case and rng2.random() < 0.3:
                     from harness.props import common as _C
                     case["pre"] = rng2.sample(_C.PRE_CALLS, rng2.randint(1, 4))
+                # how the TraceAnalysis object comes to be: mostly from a rank -> file dictionary; sometimes through the
+                # constructor with the directory only, or with a list of file names (ranks discovered from the metadata)
+                if isinstance(case, dict) and "ctor" not in case:
+                    case["ctor"] = rng2.choice([None] * 6 + ["dir", "list"])
             signal.alarm(case_limit)
             try:
                 r = run_one(mod, drv, case)
